@@ -14,7 +14,7 @@ from harness.swctext import Expect
 PID = "C16"
 TRANSLATE_ALGO = ["AlgoNode", "AlgoAssemble", "AlgoResample", "AlgoResampleTree"]   # regenerated on every run from transforms/branch_tree.py (BranchTreeAssembler.__call__), node.py (detach), tree.py (Node.children)
 DRIVER_FILES = ["SwcVerif/Model/AlgoRunAssemble.lean", "SwcVerif/Model/AlgoRunResample.lean", "SwcVerif/Model/AlgoRunResampleTree.lean"]
-LEAN_MODS = ["SwcVerif.Props.C16", "SwcVerif.Props.C16Length", "SwcVerif.Props.C16Pair", "SwcVerif.Props.C16PairLoc", "SwcVerif.Props.C16Asm", "SwcVerif.Props.C16AsmGen", "SwcVerif.Props.C16Gen", "SwcVerif.Props.C16Tree"]
+LEAN_MODS = ["SwcVerif.Props.C16", "SwcVerif.Props.C16Length", "SwcVerif.Props.C16Pair", "SwcVerif.Props.C16PairLoc", "SwcVerif.Props.C16Asm", "SwcVerif.Props.C16AsmGen", "SwcVerif.Props.C16Gen", "SwcVerif.Props.C16Tree", "SwcVerif.Props.C16Tree2"]
 THEOREMS = [
     "C16Asm.machine_eq_sub", "C16Asm.assemble_eq", "C16Asm.assemble_sorted", "C16Asm.assemble_wf", "C16Asm.assemble_length", "C16Asm.branch_is_chain",
     # the assembler as TRANSLATED from transforms/branch_tree.py on every run (Gen/AlgoAssemble.lean) refines the model
@@ -29,6 +29,8 @@ THEOREMS = [
     "C16.generated_lin_eq_model", "C16.generated_iso_eq_model", "C16.generated_smooth_eq_model", "C16.generated_iso_step_le", "C16.generated_smooth_endpoints_count", "C16.generated_lin_last",
     # the tree-level driver `Resampler.__call__` as TRANSLATED from transforms/tree.py on every run (Gen/AlgoResampleTree.lean) is the composition of the generated pieces
     "RefineResamTree.for2_loop", "RefineResamTree.for3_loop", "RefineResamTree.resam_tree_eq", "C16Tree.generated_resample_tree_eq_compose", "C16Tree.generated_resample_tree_wf_partial",
+    # `TreeSmoother.__call__` as TRANSLATED (Gen/AlgoResampleTree.lean `smooth_tree`): the loop is a fold over the branches; on every well-formed tree every branch ends up smoothed from its ORIGINAL rows, end points / root / furcations / tips keep their coordinates
+    "RefineSmoothTree.for1_step", "RefineSmoothTree.for1_loop", "RefineSmoothTree.smooth_tree_eq", "C16Tree2.stepCol_frame", "C16Tree2.foldl_gather", "C16Tree2.pairwise_tree", "C16Tree2.good_tree", "C16Tree2.generated_smooth_tree", "C16Tree2.generated_smooth_tree_endpoints",
     "C16.pairArgmin_spec", "C16.pair_step_inv", "C16.pair_exact", "C16.pair_step_loc", "C16.pair_same_place",
 ]
 TRUSTED = ["hand-written rational models Model/Resample.lean of np.interp / linspace / arange, the two branch resamplers, the moving-average smoother and the "
